@@ -184,7 +184,7 @@ impl Arena {
   requires
     offset as int + 8 <= u32::MAX as int, // [C04]
     offset as int + size as int <= u32::MAX as int, // [C04]
-    old(st)@.discarded + size as int <= u32::MAX as int, // [C20]
+    old(st)@.discarded + (if seg_valid(old(st)@, offset as int, size as int) { 0 } else { size as int }) <= u32::MAX as int, // [C20]
     old(st)@.writable, // [C09]
   ensures
     r.is_some() == seg_valid(old(st)@, offset as int, size as int), // [C10]
@@ -203,7 +203,7 @@ impl Arena {
     wf_shape(self.av(), st@),
     forall|a: u32, b: u32| check.requires((a, b)),
   ensures
-    exists|i: int| #[trigger] fp_post(st@, val, check, r, i), // [C10]
+    forall|asc: bool| cmp_is(check, asc) ==> #[trigger] fp_post(st@, val, asc, r), // [C10]
 //@before 1 /^\s*loop/
     let ghost mut idx: int = -1;
     proof { lemma_dec_enc(size_of_cell(st@.list, -1), next_of(st@.list, -1)); }
@@ -228,13 +228,13 @@ impl Arena {
 //@before 1 /current = next;/
       proof { idx = idx + 1; }
 //@before 1 /return \(\*current_node, current\);/
-        proof { assert(fp_post(st@, val, check, (*current_node, current), idx)); }
+        proof { assert forall|asc: bool| cmp_is(check, asc) implies #[trigger] fp_post(st@, val, asc, (*current_node, current)) by { lemma_first_idx(st@.list, val, asc, idx + 1); } }
 //@before 2 /return \(\*current_node, current\);/
-        proof { assert(fp_post(st@, val, check, (*current_node, current), idx)); }
+        proof { assert forall|asc: bool| cmp_is(check, asc) implies #[trigger] fp_post(st@, val, asc, (*current_node, current)) by { lemma_first_idx(st@.list, val, asc, idx + 1); } }
 //@before 3 /return \(\*current_node, current\);/
-        proof { assert(fp_post(st@, val, check, (*current_node, current), idx)); }
+        proof { assert forall|asc: bool| cmp_is(check, asc) implies #[trigger] fp_post(st@, val, asc, (*current_node, current)) by { lemma_first_idx(st@.list, val, asc, idx + 1); } }
 //@before 4 /return \(\*current_node, current\);/
-        proof { assert(fp_post(st@, val, check, (*current_node, current), idx)); }
+        proof { assert forall|asc: bool| cmp_is(check, asc) implies #[trigger] fp_post(st@, val, asc, (*current_node, current)) by { lemma_first_idx(st@.list, val, asc, idx + 1); } }
 //@@end
 
 //@@fn file=unsync.rs scope="impl Arena {" name=find_prev_and_next xlate=unsync st=ref props=C10
@@ -243,8 +243,7 @@ impl Arena {
     wf_shape(self.av(), st@),
     forall|a: u32, b: u32| check.requires((a, b)),
   ensures
-    r.is_none() ==> (forall|j: int| 0 <= j < st@.list.len() ==> check.ensures((val, #[trigger] st@.list[j].1), false)), // [C10]
-    r.is_some() ==> (exists|i: int| #[trigger] fpn_some(st@, val, check, r.unwrap(), i)), // [C10]
+    forall|asc: bool| cmp_is(check, asc) ==> #[trigger] fpn_post(st@, val, asc, r), // [C10]
 //@before 1 /^\s*loop/
     let ghost mut idx: int = -1;
     proof { lemma_dec_enc(size_of_cell(st@.list, -1), next_of(st@.list, -1)); }
@@ -267,13 +266,136 @@ impl Arena {
         lemma_dec_enc(size_of_cell(st@.list, idx + 1), next_of(st@.list, idx + 1));
       }
 //@before 1 /return Some\(\(\(\*current_node, current\)/
-        proof {
-          let ghost p = ((*current_node, current), (*next_node, next));
-          assert(fpn_some(st@, val, check, p, idx + 1));
-          assert(Some(p).unwrap() == p);
-        }
+        proof { assert forall|asc: bool| cmp_is(check, asc) implies #[trigger] fpn_post(st@, val, asc, Some(((*current_node, current), (*next_node, next)))) by { lemma_first_idx(st@.list, val, asc, idx + 1); } }
 //@before 1 /current = self\.get_segment_node\(st, next_offset\);/
       proof { idx = idx + 1; }
+//@before 1 /return None;/
+        proof { assert forall|asc: bool| cmp_is(check, asc) implies #[trigger] fpn_post(st@, val, asc, None) by { lemma_first_idx(st@.list, val, asc, idx + 1); } }
+//@before 2 /return None;/
+        proof { assert forall|asc: bool| cmp_is(check, asc) implies #[trigger] fpn_post(st@, val, asc, None) by { lemma_first_idx(st@.list, val, asc, idx + 1); } }
+//@before 3 /return None;/
+        proof { assert forall|asc: bool| cmp_is(check, asc) implies #[trigger] fpn_post(st@, val, asc, None) by { lemma_first_idx(st@.list, val, asc, idx + 1); } }
+//@@end
+
+// ---- release into the free list ---------------------------------------------------------------------------
+
+//@@fn file=unsync.rs scope="impl Arena {" name=pessimistic_dealloc xlate=unsync st=mut props=C10,C01,C20
+//@closure
+  b == (val <= next_node_size)
+//@contract
+  requires
+    wf(self.av(), old(st)@),
+    self.freelist == Freelist::Pessimistic,
+    old(st)@.writable, // [C09]
+    self.data_offset as int <= offset as int, offset as int + size as int <= old(st)@.allocated, // [C01]
+    clear_of_list(old(st)@.list, offset as int, offset as int + size as int), // [C01 C10]
+    old(st)@.discarded + (if seg_valid(old(st)@, offset as int, size as int) { 8 } else { size as int }) <= u32::MAX as int, // [C20]
+  ensures
+    wf_shape(self.av(), final(st)@), // [C01 C10]
+    wf_order(self.av(), final(st)@), // [C10]
+    r == seg_valid(old(st)@, offset as int, size as int), // [C10]
+    r ==> final(st)@.list == list_insert(old(st)@.list, seg_node(offset as int, size as int), true), // [C10]
+    r ==> final(st)@.discarded == old(st)@.discarded + 8, // [C20]
+    !r ==> final(st)@ == (SV { discarded: old(st)@.discarded + size as int, ..old(st)@ }), // [C20]
+    frame_ok(old(st)@.list, old(st)@.bytes, final(st)@.bytes, offset as int, offset as int + size as int), // [C01]
+    final(st)@.allocated == old(st)@.allocated, final(st)@.min_seg == old(st)@.min_seg, // [C01]
+    final(st)@.writable == old(st)@.writable, final(st)@.lo == old(st)@.lo,
+//@before 1 /let Some\(mut segment_node\) = self\.try_new_segment/
+    proof { lemma_seg_node_bounds(offset as int, size as int); }
+//@before 1 /return false;/
+      proof { lemma_wf_frame(self.av(), old(st)@, st@, 0, 0); }
+//@after 1 /let Some\(mut segment_node\) = self\.try_new_segment/
+    let ghost s0 = st@;
+    let ghost n: Node = (segment_node.ptr_offset, segment_node.data_size);
+    proof {
+      lemma_seg_node_props(self.av(), s0, offset as int, size as int);
+    }
+//@after 1 /decode_segment_node\(current_node_size_and_next_node_offset\);/
+    let ghost i: int = first_idx(s0.list, n.1, true) - 1;
+    proof {
+      lemma_first_idx_props_from(s0.list, n.1, true, 0);
+      assert(fp_post(s0, n.1, true, (current_node_size_and_next_node_offset, current)));
+      lemma_dec_enc(size_of_cell(s0.list, i), next_of(s0.list, i));
+      if i >= 0 { assert(node_ok(self.av(), s0, s0.list[i])); }
+    }
+//@after 1 /segment_node\.update_next_node\(st, next_node_offset\);/
+    let ghost s1 = st@;
+//@after 1 /st\.store\(current, encode_segment_node\(node_size, segment_node\.ptr_offset\)\);/
+    proof {
+      st.list = Ghost(s0.list.insert(i + 1, n));
+      lemma_insert_bytes(self.av(), s0, s1, st@, i, n);
+      lemma_insert_shape(self.av(), s0, st@, i, n);
+      lemma_insert_order(self.av(), s0, st@, i, n, true);
+      lemma_frame_widen(s0.list, s0.bytes, st@.bytes, n.0 as int, n.0 as int + 8, offset as int, offset as int + size as int);
+    }
+    let ghost s2 = st@;
+//@after 1 /self\.increase_discarded\(st, segment_node\.data_offset - segment_node\.ptr_offset\);/
+    proof { lemma_wf_frame(self.av(), s2, st@, 0, 0); }
+//@@end
+
+//@@fn file=unsync.rs scope="impl Arena {" name=optimistic_dealloc xlate=unsync st=mut props=C10,C01,C20
+//@closure
+  b == (val >= next_node_size)
+//@contract
+  requires
+    wf(self.av(), old(st)@),
+    self.freelist == Freelist::Optimistic,
+    old(st)@.writable, // [C09]
+    self.data_offset as int <= offset as int, offset as int + size as int <= old(st)@.allocated, // [C01]
+    clear_of_list(old(st)@.list, offset as int, offset as int + size as int), // [C01 C10]
+    old(st)@.discarded + (if seg_valid(old(st)@, offset as int, size as int) { 8 } else { size as int }) <= u32::MAX as int, // [C20]
+  ensures
+    wf_shape(self.av(), final(st)@), // [C01 C10]
+    wf_order(self.av(), final(st)@), // [C10]
+    r == seg_valid(old(st)@, offset as int, size as int), // [C10]
+    r ==> final(st)@.list == list_insert(old(st)@.list, seg_node(offset as int, size as int), false), // [C10]
+    r ==> final(st)@.discarded == old(st)@.discarded + 8, // [C20]
+    !r ==> final(st)@ == (SV { discarded: old(st)@.discarded + size as int, ..old(st)@ }), // [C20]
+    frame_ok(old(st)@.list, old(st)@.bytes, final(st)@.bytes, offset as int, offset as int + size as int), // [C01]
+    final(st)@.allocated == old(st)@.allocated, final(st)@.min_seg == old(st)@.min_seg, // [C01]
+    final(st)@.writable == old(st)@.writable, final(st)@.lo == old(st)@.lo,
+//@before 1 /let Some\(mut segment_node\) = self\.try_new_segment/
+    proof { lemma_seg_node_bounds(offset as int, size as int); }
+//@before 1 /return false;/
+      proof { lemma_wf_frame(self.av(), old(st)@, st@, 0, 0); }
+//@after 1 /let Some\(mut segment_node\) = self\.try_new_segment/
+    let ghost s0 = st@;
+    let ghost n: Node = (segment_node.ptr_offset, segment_node.data_size);
+    proof {
+      lemma_seg_node_props(self.av(), s0, offset as int, size as int);
+    }
+//@loop 1
+      invariant
+        st@ == s0,
+        wf(self.av(), s0), self.freelist == Freelist::Optimistic, s0.writable,
+        node_ok(self.av(), s0, n), clear_of_list(s0.list, n.0 as int, node_end(n)),
+        n == (segment_node.ptr_offset, segment_node.data_size), segment_node.data_offset == segment_node.ptr_offset + 8,
+        n == seg_node(offset as int, size as int), seg_valid(old(st)@, offset as int, size as int),
+        offset as int <= n.0 as int, node_end(n) == offset as int + size as int,
+        s0 == old(st)@,
+        s0.discarded + 8 <= u32::MAX as int,
+      decreases 0int,
+//@after 1 /decode_segment_node\(current_node_size_and_next_node_offset\);/
+    let ghost i: int = first_idx(s0.list, n.1, false) - 1;
+    proof {
+      lemma_first_idx_props_from(s0.list, n.1, false, 0);
+      assert(fp_post(s0, n.1, false, (current_node_size_and_next_node_offset, current)));
+      lemma_dec_enc(size_of_cell(s0.list, i), next_of(s0.list, i));
+      if i >= 0 { assert(node_ok(self.av(), s0, s0.list[i])); }
+    }
+//@after 1 /segment_node\.update_next_node\(st, next_node_offset\);/
+    let ghost s1 = st@;
+//@after 1 /st\.store\(current, encode_segment_node\(node_size, segment_node\.ptr_offset\)\);/
+    proof {
+      st.list = Ghost(s0.list.insert(i + 1, n));
+      lemma_insert_bytes(self.av(), s0, s1, st@, i, n);
+      lemma_insert_shape(self.av(), s0, st@, i, n);
+      lemma_insert_order(self.av(), s0, st@, i, n, false);
+      lemma_frame_widen(s0.list, s0.bytes, st@.bytes, n.0 as int, n.0 as int + 8, offset as int, offset as int + size as int);
+    }
+    let ghost s2 = st@;
+//@after 1 /self\.increase_discarded\(st, segment_node\.data_offset - segment_node\.ptr_offset\);/
+    proof { lemma_wf_frame(self.av(), s2, st@, 0, 0); }
 //@@end
 
 } // impl Arena
